@@ -1,4 +1,5 @@
 import CodeLimit.Lemmas.Relabel
+import CodeLimit.Lemmas.ExceptDec
 /-!
 # Invisible tokens (whitespace, comments without the suppression marker) and counted lines
 -/
@@ -126,7 +127,6 @@ theorem shiftCode_of_check (f : Nat → Nat) (toks : List Tok)
     ∀ t ∈ toks, IsCode t → ∀ i, i ≤ (lastLineInfo t.val).1 → f (t.line + i) = f t.line + i :=
   fun t ht hc => shiftOn_of_check f _ h t (mem_filterTokens_false.mpr ⟨ht, hc⟩)
 
-deriving instance DecidableEq for Except
 
 /-! ## counted lines -/
 
@@ -200,7 +200,7 @@ theorem countedLines_mem {code : List Tok} {s : Scope} {ch : List Range} {ls : L
 
 /-! ## `countDistinct` is monotone -/
 
-theorem nodup_eraseDups (l : List Nat) : l.eraseDups.Nodup := by
+theorem nodup_eraseDups_inv (l : List Nat) : l.eraseDups.Nodup := by
   generalize hn : l.length = n
   induction n using Nat.strongRecOn generalizing l with
   | _ n ih =>
@@ -218,7 +218,7 @@ theorem nodup_eraseDups (l : List Nat) : l.eraseDups.Nodup := by
 theorem countDistinct_le_of_subset {l₁ l₂ : List Nat} (h : ∀ x ∈ l₁, x ∈ l₂) :
     countDistinct l₁ ≤ countDistinct l₂ := by
   unfold countDistinct
-  apply List.Nodup.length_le_of_subset (nodup_eraseDups l₁)
+  apply List.Nodup.length_le_of_subset (nodup_eraseDups_inv l₁)
   intro x hx
   rw [List.mem_eraseDups] at hx ⊢
   exact h x hx
